@@ -7,6 +7,7 @@ import (
 	"encoding/binary"
 	"fmt"
 	"math"
+	"regexp"
 	"strings"
 
 	"pgregory.net/rapid"
@@ -158,46 +159,107 @@ func kindsOf(fields []refcodec.LenField) map[string]int {
 	return m
 }
 
-// buildFrame picks, among a few candidates drawn from seed, the frame with the
-// most field kinds and (then) the most fields within a size limit, so that the
-// enumeration meets every kind of length field the version has.
-func buildFrame(a *refcodec.API, ver int16, variant string, seed int) (*corpusFrame, error) {
-	var best *candidate
-	bestScore := -1
-	limit := 6000
-	if variant == "big" {
-		limit = 120000
+var indexRe = regexp.MustCompile(`\[\d+\]`)
+
+// slotKey names a length field of the schema: its path without array indices, and its kind.
+func slotKey(f refcodec.LenField) string {
+	return indexRe.ReplaceAllString(f.Path, "[]") + "#" + f.Kind
+}
+
+func slotsOf(fields []refcodec.LenField) map[string]bool {
+	m := map[string]bool{}
+	for _, f := range fields {
+		m[slotKey(f)] = true
 	}
+	return m
+}
+
+// frameFromSeed regenerates one corpus frame from its exact candidate seed
+// (what a replay file stores).
+func frameFromSeed(a *refcodec.API, ver int16, variant string, candSeed int) (*corpusFrame, error) {
+	c, err := genCandidate(a, ver, variant, candSeed)
+	if err != nil {
+		return nil, err
+	}
+	return &corpusFrame{API: a, Ver: ver, Variant: variant, Seed: candSeed, Frame: c.frame, Fields: c.fields}, nil
+}
+
+const candidatesPerFrame = 16
+
+// buildFrames draws candidatesPerFrame candidates from seed and picks up to
+// maxFrames of them greedily so that together they contain as many distinct
+// length fields of the schema (slots) as possible: a nested array is only met
+// when its parents are non-empty.  It also returns how many slots the
+// candidates showed in total and how many the picked frames contain.
+func buildFrames(a *refcodec.API, ver int16, variant string, seed, maxFrames int) (frames []*corpusFrame, seen, covered int, err error) {
+	limit := 6000
+	n := candidatesPerFrame
+	if variant == "big" {
+		limit, n = 120000, 4
+	}
+	var cands []*corpusFrame
+	union := map[string]bool{}
 	var lastErr error
-	for i := 0; i < 8; i++ {
-		c, err := genCandidate(a, ver, variant, seed*8+i)
-		if err != nil {
-			lastErr = err
+	for i := 0; i < n; i++ {
+		cf, e := frameFromSeed(a, ver, variant, seed*candidatesPerFrame+i)
+		if e != nil {
+			lastErr = e
 			continue
 		}
-		if len(c.frame) > limit {
+		if len(cf.Frame) > limit {
 			continue
 		}
-		n := len(c.fields)
-		if n > 80 {
-			n = 80
-		}
-		score := len(kindsOf(c.fields))*1000 + n
-		if score > bestScore {
-			cc := c
-			best, bestScore = &cc, score
+		cands = append(cands, cf)
+		for k := range slotsOf(cf.Fields) {
+			union[k] = true
 		}
 		if variant == "big" {
 			break
 		}
 	}
-	if best == nil {
+	if len(cands) == 0 {
 		if lastErr == nil {
 			lastErr = fmt.Errorf("all candidates above %d bytes", limit)
 		}
-		return nil, lastErr
+		return nil, 0, 0, lastErr
 	}
-	return &corpusFrame{API: a, Ver: ver, Variant: variant, Seed: seed, Frame: best.frame, Fields: best.fields}, nil
+	have := map[string]bool{}
+	for len(frames) < maxFrames {
+		best, bestGain := -1, 0
+		for i, cf := range cands {
+			if cf == nil {
+				continue
+			}
+			gain := 0
+			for k := range slotsOf(cf.Fields) {
+				if !have[k] {
+					gain++
+				}
+			}
+			// ties: the smaller frame
+			if gain > bestGain || gain == bestGain && gain > 0 && len(cf.Frame) < len(cands[best].Frame) {
+				best, bestGain = i, gain
+			}
+		}
+		if best < 0 {
+			break
+		}
+		for k := range slotsOf(cands[best].Fields) {
+			have[k] = true
+		}
+		frames = append(frames, cands[best])
+		cands[best] = nil
+	}
+	return frames, len(union), len(have), nil
+}
+
+// buildFrame returns the first (richest) frame of buildFrames.
+func buildFrame(a *refcodec.API, ver int16, variant string, seed int) (*corpusFrame, error) {
+	fs, _, _, err := buildFrames(a, ver, variant, seed, 1)
+	if err != nil {
+		return nil, err
+	}
+	return fs[0], nil
 }
 
 // ---------------------------------------------------------------------------
@@ -408,4 +470,54 @@ func supplyStream(frame []byte, mode string, fieldEnd int) []byte {
 		return out
 	}
 	return frame
+}
+
+// schemaSlots lists, from the schema table alone, the string / bytes / array /
+// record-set length fields a response of this version can contain (tag buffers
+// aside), named like slotKey names the encoder's fields.
+func schemaSlots(a *refcodec.API, ver int16) map[string]bool {
+	out := map[string]bool{}
+	flex := a.RespFlexible(ver)
+	pre := func(k string) string {
+		if flex {
+			return "compact_" + k
+		}
+		return k
+	}
+	var walkType func(path string, t *refcodec.Type)
+	var walkFields func(path string, fs []refcodec.Field)
+	walkType = func(path string, t *refcodec.Type) {
+		switch t.Kind {
+		case refcodec.KString:
+			out[path+"#"+pre("string")] = true
+		case refcodec.KBytes:
+			out[path+"#"+pre("bytes")] = true
+		case refcodec.KArray:
+			out[path+"#"+pre("array")] = true
+			walkType(path+".[]", t.Elem)
+		case refcodec.KStruct:
+			walkFields(path, t.Fields)
+		case refcodec.KRecords:
+			out[path+"#records_size"] = true
+		}
+	}
+	walkFields = func(path string, fs []refcodec.Field) {
+		for i := range fs {
+			f := &fs[i]
+			if !f.In(ver) || f.TaggedIn(ver) {
+				continue
+			}
+			p := f.N
+			if path != "" {
+				p = path + "." + f.N
+			}
+			if f.T.Kind == refcodec.KInline {
+				walkFields(p, f.T.Fields)
+				continue
+			}
+			walkType(p, f.T)
+		}
+	}
+	walkFields("", a.Resp)
+	return out
 }
